@@ -30,7 +30,7 @@ def run(ctx):
         fb = ex.submit(hc.build, ctx)
         c = dict(K)
         c.update({"Seed": str(ctx.seed % 499), "NRand": "6" if quick else "120"})
-        fmc = ex.submit(vf.mc, ctx, "MC_Invocations", vf.cfg_text(constants=c, invariants=["Kinds", "Bounded", "Slots", "Exports", "Credit"]),
+        fmc = ex.submit(vf.mc, ctx, "MC_Invocations", vf.cfg_text(constants=c, invariants=["Kinds", "Bounded", "Slots", "Exports", "Credit", "Payable", "Collapse"]),
                         workers=2 if quick else 6, timeout=2400, heap="4g")
         if ctx.replay:
             casep = os.path.join(ctx.tmp, "replay-cases.ndjson")
@@ -39,7 +39,7 @@ def run(ctx):
                     f.write(json.dumps(json.loads(ln)["case"]) + "\n")
         else:
             g = dict(K)
-            g.update({"Seed": str(ctx.seed % 499), "NRand": "20" if quick else "600"})
+            g.update({"Seed": str(ctx.seed % 499), "NRand": "20" if quick else "600", "Only": '"all"'})
             casep = vf.gen_cases(ctx, "Invocations_Gen", g, timeout=2400, heap="4g")
         binp = fb.result()
         tracep = os.path.join(ctx.tmp, "inv-trace.ndjson")
